@@ -188,9 +188,12 @@ def replay(spec):
     Wx = np.array([[0, -a[2], a[1]], [a[2], 0, -a[0]], [-a[1], a[0], 0]])
     Ex = np.array([[0, -earth.RATE, 0], [earth.RATE, 0, 0], [0, 0, 0]])
     wantC = C_en @ Cm @ Wx - Ex @ C_en @ Cm
-    for nm, got, want, tol in (('position kinematics', ex[0], wantA, 1e-4 * max(1, np.abs(wantA).max())),
-                               ('velocity dynamics', ex[1], wantB, 2e-4 * max(1, np.abs(wantB).max())),
-                               ('attitude kinematics', ex[2], wantC, 1e-5 * max(1, np.abs(wantC).max()))):
+    # Richardson-extrapolated one-step rates are accurate to O(h^2) ~ 1e-6 relative; the tolerances sit
+    # just above that so that dt-independent defects of a few 1e-5 m/s^2 (e.g. a wrong radius in a
+    # transport-rate term at 250 m/s) are still seen
+    for nm, got, want, tol in (('position kinematics', ex[0], wantA, 2e-6 * max(1, np.abs(wantA).max()) + 1e-6),
+                               ('velocity dynamics', ex[1], wantB, 2e-6 * max(1, np.abs(wantB).max()) + 3e-6),
+                               ('attitude kinematics', ex[2], wantC, 4e-5 * max(1, np.abs(wantC).max()))):
         if np.abs(got - want).max() > tol:
             fails.append('%s: one-step rate of the integrator differs from Newton\'s law in ECEF by %.3g (tolerance %.3g)' % (nm, np.abs(got - want).max(), tol))
     return {'violated': bool(fails), 'detail': fails}
